@@ -438,8 +438,8 @@ Definition qs_step (s : qs) (op : ring_op) : outcome (qs * (list Z * list A)) :=
       do x <- qs_enqueue_one_with s (fun _ old => Ok (wr w old, acc, old));
       let '(s1, old) := x in Ok (s1, ([b2z acc], [old]))
   | RODeqOne =>
-      do x <- qs_dequeue_one_with s (fun _ v => Ok (true, v));
-      let '(s1, v) := x in Ok (s1, ([], [v]))
+      do x <- qs_dequeue_one_with s (fun idx v => Ok (true, (idx, v)));
+      let '(s1, (_, v)) := x in Ok (s1, ([], [v]))
   | RODeqOneWith acc =>
       do x <- qs_dequeue_one_with s (fun _ v => Ok (acc, v));
       let '(s1, v) := x in Ok (s1, ([b2z acc], [v]))
@@ -499,3 +499,14 @@ Definition ring_view (r : ring) : qs :=
 Definition ring_abs (r : ring) : list A := q_q (ring_view r).
 
 End Ring.
+
+Arguments RODeqOne {A}.
+Arguments RODeqOneWith {A} acc.
+Arguments RODeqManyWith {A} k.
+Arguments RODeqMany {A} size.
+Arguments RODeqSlice {A} n.
+Arguments ROEnqUnalloc {A} n.
+Arguments ROGetAlloc {A} off size.
+Arguments RORdAlloc {A} off n.
+Arguments RODeqAlloc {A} n.
+Arguments ROClear {A}.
